@@ -899,9 +899,8 @@ class PageXMLPage(PageXMLTextRegion):
         return text_regions
 
     def get_inner_text_regions(self) -> List[PageXMLTextRegion]:
-        text_regions = self.get_all_text_regions()
         inner_trs = []
-        for tr in text_regions:
+        for tr in self.columns + self.text_regions + self.extra:
             inner_trs.extend(tr.get_inner_text_regions())
         return inner_trs
 
